@@ -4,7 +4,7 @@ EXTENDS SpecGen, TraceBase
 DevOas30 == {"OpenApi30Invalid"}
 DevDocNull == {"DocstringNullType"}
 TraceInit == tid \in 1..NTraces /\ l = 1 /\ InitWith(Traces[tid].scn.scn)
-Obs(e) == [fn |-> e.fn, ep |-> e.ep, name |-> e.name, result |-> e.result, reqname |-> e.reqname, errors |-> SetOf(e.errors), tags |-> e.tags, cpref |-> e.cpref,
+Obs(e) == [fn |-> e.fn, ep |-> e.ep, name |-> e.name, result |-> e.result, reqname |-> e.reqname, errors |-> SetOf(e.errors), tags |-> e.tags, cpref |-> e.cpref, errtext |-> e.errtext,
            meta |-> MetaVerdictG(e, Len(docs) + 1)]
 \* one event per generation: the document projected onto its entries, plus the judgements TLC cannot derive (DESIGN 3.4):
 \* JSON-encodable, valid against the official meta-schema, no dangling $ref, user's objects deep-equal before / after
